@@ -17,12 +17,14 @@ Definition hstate := option (dict (list Z) Z).
 Inductive hop :=
 | HTake (ty : option hval) (k : Z)   (* it = iter_sections(type=ty); list(islice(it, k)); it is dropped *)
 | HIter (ty : option hval)           (* list(iter_sections(type=ty)) *)
+| HSegs (ty : option hval)           (* list(iter_segments(type=ty)): creates every Segment object anew *)
 | HHas (name : list Z)               (* has_section(name) *)
 | HIndex (name : list Z)             (* get_section_index(name) *)
 | HByName (name : list Z).           (* get_section_by_name(name) *)
 
 Inductive hans :=
 | ASects (l : list sect)
+| ASegs (l : list segm)
 | ABool (b : bool)
 | AIndex (i : option Z)
 | ASect (x : option sect).
@@ -78,6 +80,7 @@ Definition hstep (ef : elffile) (st : hstate) (op : hop) : hstate * res hans :=
   match op with
   | HTake ty k => (st, do l <- iter_sections_take ef ty k; Ok (ASects l))
   | HIter ty => (st, do l <- iter_sections ef ty; Ok (ASects l))
+  | HSegs ty => (st, do l <- iter_segments ef ty; Ok (ASegs l))
   | HHas name =>
       let (st', m) := ensure_map ef st in
       (st', do d <- m; Ok (ABool (memb bytes_eqb name (dict_keys d))))
